@@ -24,6 +24,7 @@ type Config struct {
 	CallbackSleepS int   `json:"callback_sleep_s,omitempty"`
 	SlowCallback   string `json:"slow_callback,omitempty"` // which lifecycle callback sleeps
 	ServerV6       bool  `json:"server_v6,omitempty"`   // the UDP listener is bound to an IPv6 address
+	Stream         []int `json:"stream_clients,omitempty"` // client indices that talk to the server over a TCP control connection
 }
 
 // Step is one scripted action. Everything is symbolic (indices into pools) and resolved against
@@ -138,6 +139,16 @@ func (c *Config) inboundMTU() int {
 	}
 
 	return c.InboundMTU
+}
+
+func (c *Config) isStream(client int) bool {
+	for _, s := range c.Stream {
+		if s == client {
+			return true
+		}
+	}
+
+	return false
 }
 
 func (c *Config) denied(client int, ip net.IP) bool {
